@@ -136,7 +136,8 @@ def ob_access(tname, rng_first, k0: int = 0, v0: int = 0, k1: int = 0, v1: int =
         ocol = m.evaluate("Other!A:A")
     if other:
         ocol = ocol if isinstance(ocol, tuple) else (ocol,)
-        n_other = len([c for c in wb.TEMPLATES[tname]["__other__"] if c.startswith("A")])
+        import re as _re2
+        n_other = max(int(_re2.sub("[A-Z]", "", c)) for c in wb.TEMPLATES[tname]["__other__"])
         if len(ocol) != n_other:
             return False
         for i, x in enumerate(ocol):
@@ -145,7 +146,9 @@ def ob_access(tname, rng_first, k0: int = 0, v0: int = 0, k1: int = 0, v1: int =
     row = m.evaluate(wb.addr("1:1"))
     col = col if isinstance(col, tuple) else (col,)
     row = row if isinstance(row, tuple) else (row,)
-    n_col = len([c for c in wb.TEMPLATES[tname] if c.startswith("A") and not c.startswith("__")])
+    # A:A is clipped to the used area of the sheet: its height is the last used row of *any* column
+    import re as _re
+    n_col = max(int(_re.sub("[A-Z]", "", c)) for c in wb.inputs_of(tname) + wb.formulas_of(tname))
     if len(col) != n_col:
         return False
     for i, x in enumerate(col):
@@ -183,9 +186,17 @@ def _orders(tname, tier):
     if tier == "thorough":
         import random
         rnd = random.Random(len(forms))
-        perms = list(itertools.permutations(forms))
-        rnd.shuffle(perms)
-        for p in perms[:24]:
+        if len(forms) <= 7:
+            perms = list(itertools.permutations(forms))
+            rnd.shuffle(perms)
+            perms = perms[:24]
+        else:           # too many to list: 24 seeded shuffles
+            perms = []
+            for _ in range(24):
+                q = list(forms)
+                rnd.shuffle(q)
+                perms.append(tuple(q))
+        for p in perms:
             if p not in seen:
                 seen.add(p)
                 res.append(p)
